@@ -8,7 +8,8 @@ EXPL = ("R12.1 in every sampling formatter the call of format_with_sample_rate i
         "origin, and the non-emitting branch returns without touching the output; R12.2 format_with_sample_rate rejects non-positive "
         "/ NaN rates before anything else and passes Some(n) with n = rate_to_n(rate, rng) to the formatter (the weight then reaches "
         "every count: R03.1); R12.3 every value stored into a congressional group's sample rate is the constant 1.0 or clamped by "
-        "min(1.0), and the derived Default (0.0) is only used as the base of a struct update that overrides the rate. Not decided: "
+        "min(1.0), and the derived Default (0.0) is only used as the base of a struct update that overrides the rate; R12.4 every "
+        "iteration of a rate-update loop over the groups stores a rate (no group keeps a stale one). Not decided: "
         "unbiasedness (expectation 1/rate), budget and monotonicity of congressional rates, 1/rate rounding.")
 W = "metrique_writer"
 CMP = ("Le", "Lt", "Ge", "Gt")
@@ -247,6 +248,44 @@ def run(ctx):
                                   "a congressional sample rate is stored without being the constant 1.0 or clamped by min(1.0): rates above 1 "
                                   "would yield weights below 1 (counts rounded to 0)")
     ctx.floor("R12.3", "stores to a group's sample_rate", n3, 4)
+    # ------------------------------------------------------------------ R12.4 no group keeps a stale rate across an update
+    nl = 0
+    for adt in gs:
+        for b in F.all_bodies(W):
+            if "::tests::" in b.path:
+                continue
+            stores = [i for i in b.live_blocks() for s in b.stmts(i) if s["k"] == "assign" and any(
+                e[0] == "f" and e[2] == "sample_rate" and e[3] == adt["def"] for e in s["lhs"].get("p", []))]
+            if not stores:
+                continue
+            # loops over the group map whose body stores a rate: every iteration must store one
+            for c in b.calls():
+                if not (c.is_trait_method("Iterator", "next") and c.bb in b.reachable_after(c.bb)):
+                    continue
+                some_t = None
+                for sw, tg, oth in switch_on_call_result(b, c):
+                    some_t = tg.get(1)
+                if some_t is None:
+                    continue
+                body_blocks = b.reachable(some_t, avoid=[c.bb])
+                mine = [i for i in stores if i in body_blocks]
+                if not mine:
+                    continue
+                nl += 1
+                # the loop must range over the whole group map: no filtering / truncating adapter in front of it
+                ro = Prov(b).operand(c.args[0])
+                srcs = [(b.term(x[1]).get("callee") or {}).get("name") for x in ro if x[0] == "call"]
+                partial = [n for n in srcs if n in ("filter", "filter_map", "skip", "take", "step_by", "take_while", "skip_while", "rev_filter", "flat_map")]
+                whole = any(n in ("values_mut", "iter_mut", "values", "iter", "drain") for n in srcs)
+                ctx.check(whole and not partial, "R12.4", fnkey(b) + "#rate-update-ranges-over-all-groups@loop%d" % nl, loc(b, c.bb),
+                          "the rate-update loop ranges over a filtered / truncated view of the groups (%s): the groups left out keep a rate computed for an "
+                          "older traffic mix, so the budget sum(volume x rate) <= target and the rarer-is-not-lower ordering no longer hold" % (partial or srcs))
+                skip = some_t not in mine and c.bb in b.reachable(some_t, avoid=mine)
+                ctx.check(not skip, "R12.4", fnkey(b) + "#every-group-gets-a-fresh-rate@loop%d" % nl, loc(b, c.bb),
+                          "the rate-update loop can skip a group (an iteration reaches the next one without storing a rate): that group keeps a rate "
+                          "computed for an older traffic mix while the others are given the whole budget, so sum(volume x rate) exceeds the target "
+                          "and a rarer group can be sampled lower than a more frequent one")
+    ctx.floor("R12.4", "rate-update loops", nl, 2)
     return EXPL
 
 
